@@ -15,13 +15,17 @@ def rle_encode(text: str) -> str:
 
 def rle_decode(text: str) -> str:
     """Decodes markers and handles escaped literal delimiters properly."""
-    # Step 1: Find and expand the RLE tokens (~cN~)
-    # Strictly matches one non-tilde character and its count inside ~ delimiters
-    rle_pattern = re.compile(r"~([^~])(\d+)~")
-    expanded = rle_pattern.sub(lambda m: m.group(1) * int(m.group(2)), text)
+    # Scan left to right so that a doubled literal delimiter (~~ -> ~) is never
+    # mistaken for the start or the end of an RLE token (~cN~): a literal "~a1~"
+    # is encoded as "~~a1~~" and must come back unchanged.
+    rle_pattern = re.compile(r"~~|~([^~])(\d+)~")
 
-    # Step 2: Collapse the doubled literal delimiters back to single ones (~~ -> ~)
-    return expanded.replace("~~", "~")
+    def expand(m: re.Match) -> str:
+        if m.group(1) is None:
+            return "~"
+        return m.group(1) * int(m.group(2))
+
+    return rle_pattern.sub(expand, text)
 
 
 def compact_value(data: Any) -> Any:
